@@ -376,6 +376,8 @@ def run_acyclic(job, acc):
             yield space.to_desc(2, gates, outputs="all")
         for gates in space.circuits(1, 2, max_arity=2, consts=("0", "1"), min_gates=1):
             yield space.to_desc(1, gates, consts=("0", "1"), outputs="all")
+        for gates in space.circuits(0, 2, types=("and", "xor", "not", "nor"), max_arity=2, consts=("0", "1"), min_gates=1):
+            yield space.to_desc(0, gates, consts=("0", "1"), outputs="sinks")   # no primary input at all
 
     for _idx, desc in space.chunk(descs(), job["chunk"], job["of"]):
         acc.states += 1
